@@ -104,7 +104,7 @@ fn inputs() -> Vec<Input> {
 const PARSERS: &[Option<&str>] = &[None, Some("quick-xml-de"), Some("serde-xml-rs")];
 const DERIVES: &[Option<&str>] = &[None, Some("Debug"), Some(""), Some("Clone, Debug"), Some("Debug,Clone"), Some(" Debug , Clone,"), Some("serde::Serialize, ::core::fmt::Debug, PartialEq<Self>")];
 const SORTS: &[Option<&str>] = &[None, Some("unsorted"), Some("name")];
-const OUTPUTS: &[&str] = &["stdout", "new-file", "existing-file", "missing-directory", "is-directory", "existing-file-same-length", "file-named-dash", "existing-empty-file", "dev-null", "long-file-name", "symlink-to-existing-file", "directory-named-like-output-plus-tmp"];
+const OUTPUTS: &[&str] = &["stdout", "new-file", "existing-file", "missing-directory", "is-directory", "existing-file-same-length", "file-named-dash", "existing-empty-file", "dev-null", "long-file-name", "symlink-to-existing-file", "directory-named-like-output-plus-tmp", "the-input-file-itself", "symlink-to-the-input-file"];
 const HEADER: &str = "use serde::{Deserialize, Serialize};\n\n";
 /// longer than any rendering of the inputs, so that a missing truncation shows
 const OLD_CONTENT: &[u8] = &[b'/'; 6000];
@@ -282,6 +282,20 @@ fn run_case(ctx: &Ctx, bin: &Path, all: &[Input], idx: u64, work: &Path) -> Vec<
             let _ = std::fs::create_dir_all(dir.join("out.rs.tmp"));
             Some(dir.join("out.rs"))
         }
+        // the output names the file the input was read from (directly / through a symbolic link): the
+        // program reads the whole input before it creates the output, so the file is replaced
+        "the-input-file-itself" => match input {
+            Input::File(..) => Some(in_path.clone()),
+            _ => Some(dir.join("out.rs")),
+        },
+        "symlink-to-the-input-file" => match input {
+            Input::File(..) => {
+                let p = dir.join("out.rs");
+                let _ = std::os::unix::fs::symlink(&in_path, &p);
+                Some(p)
+            }
+            _ => Some(dir.join("out.rs")),
+        },
         "missing-directory" => Some(dir.join("no/such/dir/out.rs")),
         _ => {
             let p = dir.join("outdir");
@@ -327,7 +341,7 @@ fn run_case(ctx: &Ctx, bin: &Path, all: &[Input], idx: u64, work: &Path) -> Vec<
     };
     let code = output.status.code();
     let stdout = output.stdout.clone();
-    let creatable = matches!(OUTPUTS[c.output], "stdout" | "new-file" | "existing-file" | "existing-file-same-length" | "file-named-dash" | "existing-empty-file" | "dev-null" | "long-file-name" | "symlink-to-existing-file" | "directory-named-like-output-plus-tmp");
+    let creatable = matches!(OUTPUTS[c.output], "stdout" | "new-file" | "existing-file" | "existing-file-same-length" | "file-named-dash" | "existing-empty-file" | "dev-null" | "long-file-name" | "symlink-to-existing-file" | "directory-named-like-output-plus-tmp" | "the-input-file-itself" | "symlink-to-the-input-file");
     match (&want, creatable) {
         (Some(text), true) => {
             if code != Some(0) {
@@ -377,7 +391,14 @@ fn run_case(ctx: &Ctx, bin: &Path, all: &[Input], idx: u64, work: &Path) -> Vec<
             }
             if want.is_none() {
                 match OUTPUTS[c.output] {
-                    "new-file" | "missing-directory" | "file-named-dash" | "long-file-name" | "directory-named-like-output-plus-tmp" => {
+                    "the-input-file-itself" | "symlink-to-the-input-file" if matches!(input, Input::File(..)) => {
+                        if let Input::File(_, b) = input {
+                            if std::fs::read(&in_path).map(|now| &now != b).unwrap_or(true) {
+                                bad("output-modified", "the input file (named as output too) was modified although the input was at fault".into());
+                            }
+                        }
+                    }
+                    "new-file" | "missing-directory" | "file-named-dash" | "long-file-name" | "directory-named-like-output-plus-tmp" | "the-input-file-itself" | "symlink-to-the-input-file" => {
                         if out_path.as_ref().map(|p| dir.join(p).exists()).unwrap_or(false) {
                             bad("output-created", "the output file was created although the input was at fault".into());
                         }
